@@ -214,7 +214,7 @@ class TGen:
         if t == "bool":
             P += [self.p_not, self.p_and, self.p_or, self.p_rel, self.p_rel, self.p_eq, self.p_eq]
             if "containers" in f:
-                P += [self.p_in_list, self.p_in_map, self.p_has]
+                P += [self.p_in_list, self.p_in_map, self.p_has, self.p_null_field]
             if "strings" in f:
                 P += [self.p_strpred]
             if "macros" in f:
@@ -312,15 +312,35 @@ class TGen:
         items = [(Node("lit", "string", ("string", k)), self.gen(vt, min(d, 1))) for k in keys[: self.rnd.randint(0, 2)]]
         return Node("has", "bool", Node("map", mt, *items), self.rnd.choice(["a", "b", "c"]))
 
+    def p_null_field(self, d):
+        """A map entry that is present and null: selected with '.', indexed, tested with has(), compared with null."""
+        r = self.rnd
+        N = Node("lit", "null", ("null", None))
+        items = [(Node("lit", "string", ("string", "n")), N)]
+        if r.random() < 0.5:
+            items.insert(r.randint(0, 1), (Node("lit", "string", ("string", "a")), N))  # homogeneous: the static type stays map<string, null>
+        m = Node("map", ("map", "string", "null"), *items)
+        c = r.random()
+        if c < 0.2:
+            return Node("has", "bool", m, "n")
+        sel = Node("field", "null", m, "n") if c < 0.75 else Node("index", "null", m, Node("lit", "string", ("string", "n")))
+        return Node("bin", "bool", r.choice(["==", "==", "!="]), sel, N) if r.random() < 0.8 else Node("bin", "bool", "==", N, sel)
+
     def p_strpred(self, d):
         fn = self.rnd.choice(["contains", "startsWith", "endsWith"])
         # both spellings: receiver.f(x) and the global form f(receiver, x)
         kind = "meth" if self.rnd.random() < 0.65 else "call"
         return Node(kind, "bool", fn, self.gen("string", d), self.gen("string", min(d, 1)))
 
+    def macro_range(self, et, d):
+        """The range of a macro: a list of et, or (one time in four) a map keyed by et -- macros iterate over map keys."""
+        if et in KEY_TYPES and "containers" in self.f and self.rnd.random() < 0.25:
+            return self.gen(("map", et, self.rand_type(1, True)), d)
+        return self.gen(("list", et), d)
+
     def p_quant(self, d):
         et = self.rnd.choice(ELEM_TYPES)
-        recv = self.gen(("list", et), d)
+        recv = self.macro_range(et, d)
         var = self.rnd.choice(["x", "y", "i", "e"])
         self.scope.append((var, et))
         try:
@@ -331,7 +351,7 @@ class TGen:
 
     def p_map(self, t, d):
         et = self.rnd.choice(ELEM_TYPES)
-        recv = self.gen(("list", et), d)
+        recv = self.macro_range(et, d)
         var = self.rnd.choice(["x", "y", "i", "e"])
         self.scope.append((var, et))
         try:
@@ -341,7 +361,7 @@ class TGen:
         return Node("macro", t, "map", recv, var, body)
 
     def p_filter(self, t, d):
-        recv = self.gen(t, d)
+        recv = self.macro_range(t[1], d) if not isinstance(t[1], tuple) else self.gen(t, d)
         var = self.rnd.choice(["x", "y", "i", "e"])
         self.scope.append((var, t[1]))
         try:
